@@ -16,8 +16,8 @@ def sweep_parallel(n, only):
     """n workers, each with its own copy of /verif (caches included) and its own worktree of /repo under /tmp/sw"""
     import shutil
     seeds = [d for d in sorted(os.listdir(f"{ROOT}/seeded")) if os.path.exists(f"{ROOT}/seeded/{d}/patch.diff")
-             and (not only or any(d.startswith(o) for o in only))]
-    base = "/tmp/sw"
+             and (not only or any(o in d for o in only))]
+    base = os.environ.get("SWEEP_BASE", "/tmp/sw")
     procs = []
     for i in range(n):
         w = f"{base}/w{i}"
@@ -59,7 +59,7 @@ def main():
     rows = []
     for d in sorted(os.listdir(f"{ROOT}/seeded")):
         p = f"{ROOT}/seeded/{d}/patch.diff"
-        if not os.path.exists(p) or (only and not any(d.startswith(o) for o in only)):
+        if not os.path.exists(p) or (only and not any(o in d for o in only)):
             continue
         meta = json.load(open(f"{ROOT}/seeded/{d}/meta.json"))
         prop = meta.get("breaks_property") or d[:3]
